@@ -492,8 +492,11 @@ def groupselectmin(table, key, value, presorted=False, buffersize=None,
     `value` field within each group. N.B., will only return one row for each
     group, even if multiple rows have the same (minimum) value."""
 
+    # N.B., sorting by value destroys any ordering by key, so the value-sorted
+    # table always has to be (stably) re-sorted by key, even if the input was
+    # presorted
     return groupselectfirst(sort(table, value, reverse=False), key,
-                            presorted=presorted, buffersize=buffersize,
+                            presorted=False, buffersize=buffersize,
                             tempdir=tempdir, cache=cache)
 
 
@@ -506,8 +509,11 @@ def groupselectmax(table, key, value, presorted=False, buffersize=None,
     `value` field within each group. N.B., will only return one row for each
     group, even if multiple rows have the same (maximum) value."""
 
+    # N.B., sorting by value destroys any ordering by key, so the value-sorted
+    # table always has to be (stably) re-sorted by key, even if the input was
+    # presorted
     return groupselectfirst(sort(table, value, reverse=True), key,
-                            presorted=presorted, buffersize=buffersize,
+                            presorted=False, buffersize=buffersize,
                             tempdir=tempdir, cache=cache)
 
 
